@@ -8,7 +8,7 @@ TECH = "deterministic simulation with fault injection: seeded search over "
 CLAIMED = {
  "C01": ("exploration", "5 / C01",
    TECH + "budgets (crash points), working-set schedules, start points, extrapolation faults and restart histories; oracle = optimality certificate recomputed by an independent reference model",
-   "Seeded simulation of single solves and crash/restart histories of the 7 solvers the property names, on both engines; every run that claims convergence is re-certified from X, y and the returned values by a reference model that shares no code with skglm. Sampling, not proof: bounded problem sizes, finite seeds.",
+   "Seeded simulation of single solves and crash/restart, parameter-change and edited-intercept restart histories of the 7 solvers the property names, on both engines; every run that claims convergence is re-certified from X, y and the returned values by a reference model that shares no code with skglm. Sampling, not proof: bounded problem sizes, finite seeds.",
    "trusted base: sim/refmodel (self-tested on every run), numpy/scipy; tolerance comparisons carry 1e-3 relative slack plus a rounding allowance (incl. the amplification by extrapolation coefficients observed at the seam)"),
  "C02": ("exploration", "5 / C02",
    TECH + "histories (budget crashes, faulty extrapolations, changed alpha) ending in a fault-free quiescent solve; oracle = objective within a tolerance-proportional margin of an independent witness optimum, plus bounded liveness",
